@@ -39,6 +39,11 @@ pub struct Case {
     /// an earlier exchange on the same connection, finished before the chain starts: this many plain calls enqueued
     /// one by one, flushed once, and their replies received (hand-made pipelining with the low-level API)
     pub prelude: usize,
+    /// the stream is polled the way an executor polls a task: a poll that ended pending is not repeated until the
+    /// stream's waker has fired (the skipped poll is recorded as `pend`, which is what it would have returned: a parked
+    /// stream's poll is a no-op, `C06_parked_stream_poll_is_noop`); a wake-up the stream loses shows as an item that
+    /// is never delivered
+    pub wake_driven: bool,
 }
 
 type Item = zlink_core::Result<zlink_core::reply::Result<P1, E1>>;
@@ -91,23 +96,42 @@ pub fn run_case(c: &Case) -> (Vec<Vec<u8>>, Vec<String>, Vec<String>) {
         }
         let stream = block_on(chain.send()).expect("send");
         let mut stream: Pin<Box<dyn Stream<Item = Item> + '_>> = Box::pin(stream);
-        let w = noop_waker();
+        let flag = WakeFlag::new();
+        let w = std::task::Waker::from(flag.clone());
         let mut cx = std::task::Context::from_waker(&w);
+        let mut parked = false;
         let mut ended = false;
         let mut evs = c.evs.iter();
         let mut rest: Vec<Ev> = vec![];
         for ev in evs.by_ref() {
             match ev {
-                Ev::Arrive(b) => net.borrow_mut().avail.extend(b.iter().copied()),
-                Ev::Close => net.borrow_mut().closed = true,
+                Ev::Arrive(b) => {
+                    let mut n = net.borrow_mut();
+                    n.avail.extend(b.iter().copied());
+                    n.wake();
+                }
+                Ev::Close => {
+                    let mut n = net.borrow_mut();
+                    n.closed = true;
+                    n.wake();
+                }
                 Ev::P => {
                     if ended {
                         // polling a finished stream again is a contract violation of Stream; record only
                         stream_out.push("ended".into());
                         continue;
                     }
+                    let woken = flag.take();
+                    if c.wake_driven && parked && !woken {
+                        stream_out.push("pend".into());
+                        continue;
+                    }
+                    parked = false;
                     match stream.as_mut().poll_next(&mut cx) {
-                        Poll::Pending => stream_out.push("pend".into()),
+                        Poll::Pending => {
+                            parked = true;
+                            stream_out.push("pend".into())
+                        }
                         Poll::Ready(None) => {
                             ended = true;
                             stream_out.push("ended".into())
@@ -145,7 +169,14 @@ pub fn run_case(c: &Case) -> (Vec<Vec<u8>>, Vec<String>, Vec<String>) {
 }
 
 pub fn line(c: &Case, obs: &(Vec<Vec<u8>>, Vec<String>, Vec<String>)) -> String {
-    let mut s = if c.prelude > 0 { format!("chain PRE{} K", c.prelude) } else { String::from("chain K") };
+    let mut s = String::from("chain");
+    if c.prelude > 0 {
+        s.push_str(&format!(" PRE{}", c.prelude));
+    }
+    if c.wake_driven {
+        s.push_str(" W1");
+    }
+    s.push_str(" K");
     for (k, call) in &c.calls {
         let b = serde_json::to_vec(call).unwrap();
         s.push_str(&format!(" {}:{}", match k { CK::Plain => 'p', CK::Oneway => 'o', CK::More => 'm', CK::Upgrade => 'u' }, enc_bytes(&b)));
@@ -311,7 +342,7 @@ pub fn gen_case(shape: &[CK], rng: &mut Rng, exhaustive_cut: Option<usize>) -> C
     };
     let close = rng.chance(2, 3);
     let evs = events(&stream, script.len(), trailing.len(), rng, cuts, close);
-    Case { calls, script, trailing, sizes, evs, prelude: if rng.chance(1, 4) { rng.range(1, 3) } else { 0 } }
+    Case { calls, script, trailing, sizes, evs, prelude: if rng.chance(1, 4) { rng.range(1, 3) } else { 0 }, wake_driven: false }
 }
 
 /// Big batches: a `more` call answered by 8..30 continuing replies of 0.5..2.5 KiB (17..50 KiB in all) followed by the
@@ -353,7 +384,7 @@ pub fn gen_big(rng: &mut Rng) -> Case {
     let sizes = if rng.chance(2, 3) { vec![] } else { vec![rng.range(2000, 9000); 100] };
     let close = rng.chance(1, 2);
     let evs = events(&stream, script.len(), trailing.len(), rng, cuts, close);
-    Case { calls, script, trailing, sizes, evs, prelude: 0 }
+    Case { calls, script, trailing, sizes, evs, prelude: 0, wake_driven: false }
 }
 
 pub fn main(o: &Opts) {
@@ -378,7 +409,8 @@ pub fn main(o: &Opts) {
         for _ in 0..reps {
             let mut r2 = Rng::new(rng.next());
             em.case(|| {
-                let c = gen_case(shape, &mut r2, None);
+                let mut c = gen_case(shape, &mut r2, None);
+                c.wake_driven = r2.chance(1, 3);
                 let obs = run_case(&c);
                 vec![line(&c, &obs)]
             });
@@ -393,7 +425,8 @@ pub fn main(o: &Opts) {
             let mut shape: Vec<CK> = (0..len).map(|_| *r2.pick(&all)).collect();
             let at = r2.below(len);
             shape[at] = CK::Upgrade;
-            let c = gen_case(&shape, &mut r2, None);
+            let mut c = gen_case(&shape, &mut r2, None);
+            c.wake_driven = r2.chance(1, 3);
             let obs = run_case(&c);
             vec![line(&c, &obs)]
         });
